@@ -15,7 +15,7 @@ RULE = (
 )
 ASSUMPTIONS = ["oracle: brute force over all partial matchings with Euclidean / perpendicular costs"]
 BOUNDS = {
-    "quick": [{"n": 2, "G": 3}, {"n": 3, "G": 2}],
+    "quick": [{"n": 2, "G": 3}, {"n": 3, "G": 2}, {"n": 3, "alphabet": [[0, 1], [2, 3], [0, 3], [1, 2], [3, 3]]}],
     "thorough": [{"n": 3, "G": 3}, {"n": 4, "G": 2}],
 }
 RTOL = 1e-9
@@ -27,13 +27,14 @@ def bounds(tier):
 
 def cases(tier):
     for sp in BOUNDS[tier]:
-        for c in pair_cases(lattice_points(sp["G"]), sp["n"]):
+        alphabet = [tuple(p) for p in sp["alphabet"]] if "alphabet" in sp else lattice_points(sp["G"])
+        for c in pair_cases(alphabet, sp["n"]):
             yield c
 
 
 def check_value(ctx, sig, v, ref, scale, what, S, T):
     ctx.valid()
-    ok = is_num(v) and np.isfinite(v) and abs(float(v) - ref) <= RTOL * max(1.0, abs(ref), scale * 1e-3)
+    ok = is_num(v) and np.isfinite(v) and abs(float(v) - ref) <= RTOL * max(abs(ref), scale * 1e-3)
     if not ok:
         ctx.violation(sig, "wasserstein(%s) != min-sum matching cost" % what, observed=v, expected=ref,
                       extra={"variant": what, "S": S, "T": T})
@@ -47,7 +48,7 @@ def run_case(case, ctx):
     ctx.state((S, T))
     v, _ = call_warn(ctx, persim.wasserstein, farr(S), farr(T))
     ctx.outcome(round(float(v), 9) if is_num(v) else repr(v))
-    check_value(ctx, "value", v, ref, 1.0, "float arrays", S, T)
+    check_value(ctx, "value", v, ref, 1e3, "float arrays", S, T)
     if info["mixed"]:
         ctx.nontriv("optimum_mixes_diagonal_and_cross")
     if info["n_optimal"] > 1 and len(S) + len(T) > 1:
